@@ -3,7 +3,7 @@ Driver for C01.  Request line (fields separated by single spaces, no spaces insi
   M=<doc|dummy|frag> T=<rec>;<rec>;... E=<tok>~<tok>~... C=<ctx index>,<ctx index>,... | *
 rec  = <kind>,<uri>,<name>,<parent or ->,<size>     kind ∈ D E A N T C P
 expr = Polish notation:  s <axis> <test> | sa <axis> <test> (abbreviated child/@) | c | u | p E E | sl E E | ds E E | r0 | r E | dr E | g E
-       | n <k> | pos | last | cmp <op> E E | and E E | or E E | not E
+       | un E E | count E | n <k> | pos | last | cmp <op> E E | and E E | or E E | not E
 test = node | text | comment | pi | pi:<target> | any | q:<uri>:<local> | ns:<uri>
 Answer:  wf=<0|1> ty=<path|num|bool|none> R=<ctx>:<model>:<spec>:<inK>|...
 value = N<i>,<i>,... | B0 | B1 | #<k> | ERR;  inK = 1 (F01b trigger) + 2 (F01c trigger) + 4 (F01i trigger)
@@ -60,6 +60,8 @@ partial def parseE : List String → Option (Expr × List String)
   | "p" :: rest => bin .pred rest
   | "sl" :: rest => bin .slash rest
   | "ds" :: rest => bin .dslash rest
+  | "un" :: rest => bin .union rest
+  | "count" :: rest => un .count rest
   | "and" :: rest => bin .and rest
   | "or" :: rest => bin .or rest
   | "cmp" :: op :: rest => do let op ← parseCmp op; bin (.cmp op) rest
